@@ -29,7 +29,8 @@ Record shape := {
   sh_kvnil : bool;       (* Set: KeyValues == nil *)
   sh_by0 : bool;         (* Increment*: IncrementBy == 0 *)
   sh_key_empty : bool;   (* Lock/Unlock: Key == "" *)
-  sh_id_empty : bool     (* Unlock: LockID == "" *)
+  sh_id_empty : bool;    (* Unlock: LockID == "" *)
+  sh_wkey_empty : bool   (* Set / Uint32SlicePush / Increment*: a treasure key to be written is "" *)
 }.
 
 Inductive outcome :=
@@ -55,7 +56,8 @@ Definition validate (c : vcfg) (h : handler) (sh : shape) : outcome :=
   match h with
   | HSet =>
       match check_shape c sh false false with
-      | Proceed => if sh_kvnil sh then Reject EInvalid false else Proceed
+      | Proceed => if sh_kvnil sh then Reject EInvalid false
+                   else if sh_wkey_empty sh then Reject EInvalid false else Proceed
       | o => o
       end
   | HGet =>   (* one swamp in the request: existence is checked up front *)
@@ -81,9 +83,16 @@ Definition validate (c : vcfg) (h : handler) (sh : shape) : outcome :=
   | HInc =>
       match sh_name sh with
       | NEmpty => Reject EInvalid false
-      | _ => if sh_by0 sh then Reject EInvalid false else check_shape c sh false false
+      | _ => if sh_by0 sh then Reject EInvalid false
+             else if sh_wkey_empty sh then Reject EInvalid false
+             else check_shape c sh false false
       end
-  | HPush | HSlDel | HSize | HIsVal | HDestroy => check_shape c sh false false
+  | HPush =>
+      match check_shape c sh false false with
+      | Proceed => if sh_wkey_empty sh then Reject EInvalid false else Proceed
+      | o => o
+      end
+  | HSlDel | HSize | HIsVal | HDestroy => check_shape c sh false false
   | HRegister | HDeRegister =>
       match sh_name sh with
       | NEmpty => Reject EInvalid false
